@@ -46,6 +46,11 @@ def fileEquals (a b : Option (List Nat)) (sameInode : Bool) (page : Nat) (allocO
     else false
   | _, _ => false
 
+/-- The inode fast path of `zix_file_equals`: the two descriptors are taken for the same file when the
+device numbers agree and the inode numbers are non-zero and agree. -/
+def sameInode (devA inoA devB inoB : Nat) : Bool :=
+  devA = devB ∧ inoA ≠ 0 ∧ inoB ≠ 0 ∧ inoA = inoB
+
 /-! ## create_directories over an abstract tree -/
 
 inductive Kind where
